@@ -1544,6 +1544,12 @@ int run_probe(const model_t& model, const int stack, const probe_t& p)
             // documented use: after shuffle(feature); here the feature index itself is out of range
             got = to_vec(dataset.shuffled(p.feature, idx));
         }
+        else if (p.call == "shuffled-after-shuffle")
+        {
+            // the reported bijection of a shuffled feature, asked for a list of sample indices
+            dataset.shuffle(p.feature);
+            got = to_vec(dataset.shuffled(p.feature, idx));
+        }
         got.resize(std::min<size_t>(got.size(), 12));
         std::fprintf(stderr, "RETURNED %s\n", jarr_num(got).c_str());
     }
@@ -1778,6 +1784,7 @@ int stage_bounds(const args_t& args, report_t& r)
             probes.push_back({"select", f, {N - 1}, true, "valid"});
         }
         add_sample_probes("flatten", 0);
+        add_sample_probes("shuffled-after-shuffle", 0);
         if (model.has_target())
         {
             add_sample_probes("targets", 0);
